@@ -236,6 +236,20 @@ class Simulator(Computer, _mixins.CodeMixin):
         self._validate_instruction_existence(instructions)
         self._validate_instruction_modes(instructions, d)
         self._validate_instruction_order(instructions)
+        self._validate_instruction_parameters(instructions)
+
+    def _validate_instruction_parameters(
+        self, instructions: List[Instruction]
+    ) -> None:
+        # NOTE: Parameters which do not depend on measurement outcomes are known before
+        # the first simulation step. The outcome-dependent ones are validated when they
+        # get resolved.
+        if not self.config.validate:
+            return
+
+        for instruction in instructions:
+            if instruction._is_resolved():
+                instruction._validate(self._connector)
 
     def _validate_initial_state(self, initial_state: State, d: int) -> None:
         if not isinstance(initial_state, self._state_class):
